@@ -105,13 +105,19 @@ def run(tier, seed):
     MAXD = 8 if tier == "quick" else 20
     rep.bounds["decimal_digit_classes"] = "1..%d digits (numbers < 10^%d)%s" % (MAXD, MAXD, "" if MAXD < 20 else " = all of u64")
     failures = []
+    # side "a" is an honest item (identifiers over their grammar); side "b" is what an altered response may contain: any bytes
+    ALPHA = lambda tag, honest: honest if tag.endswith("a") else None
+    LONG = {}
+    LEN = lambda tag, which: LONG.get((tag[-1], which), L_HASH)
+    MINLEN = lambda tag, which: LONG.get((tag[-1], which, "min"), 0)
+    NUMMAX = [U64]
     try:
         I = mk_interp(prog)
         # ---- stake distribution leaf ------------------------------------------------------------------------------
         f_sd = prog.find_one(r"cardano_stake_distribution\.rs.*>::from$", nparams=1, param_regex=r"StakeDistributionEntry")
         sides = []
         for tag in ("a", "b"):
-            pid, cons = sstr.symbolic("pool_id_" + tag, L_ID, BECH32, minlen=1)
+            pid, cons = sstr.symbolic("pool_id_" + tag, L_ID, ALPHA(tag, BECH32), minlen=1)
             stake = z3.Int("stake_" + tag)
             cons = cons + [stake >= 0, stake < U64]
             o = run_one(I, f_sd, [Agg("adt", "StakeDistributionEntry", (pid, stake))], cons)
@@ -137,16 +143,16 @@ def run(tier, seed):
         def node(kind, tag):
             cons = []
             if kind == "Block":
-                h, c1 = sstr.symbolic("block_hash_" + tag, L_HASH, HEX)
+                h, c1 = sstr.symbolic("block_hash_" + tag, LEN(tag, "block"), ALPHA(tag, HEX), minlen=MINLEN(tag, "block"))
                 bn, sl = z3.Int("block_number_" + tag), z3.Int("slot_number_" + tag)
-                cons = c1 + [bn >= 0, bn < U64, sl >= 0, sl < U64]
+                cons = c1 + [bn >= 0, bn < NUMMAX[0], sl >= 0, sl < NUMMAX[0]]
                 v = EnumV("CardanoBlockTransactionMkTreeNode", tbl["Block"], {tbl["Block"]: (h, Agg("adt", "BlockNumber", (bn,)), Agg("adt", "SlotNumber", (sl,)))})
                 fields = [h, bn, sl]
             else:
-                th, c1 = sstr.symbolic("tx_hash_" + tag, L_HASH, HEX)
-                h, c2 = sstr.symbolic("block_hash_" + tag, L_HASH, HEX)
+                th, c1 = sstr.symbolic("tx_hash_" + tag, LEN(tag, "tx"), ALPHA(tag, HEX), minlen=MINLEN(tag, "tx"))
+                h, c2 = sstr.symbolic("block_hash_" + tag, LEN(tag, "block"), ALPHA(tag, HEX), minlen=MINLEN(tag, "block"))
                 bn, sl = z3.Int("block_number_" + tag), z3.Int("slot_number_" + tag)
-                cons = c1 + c2 + [bn >= 0, bn < U64, sl >= 0, sl < U64]
+                cons = c1 + c2 + [bn >= 0, bn < NUMMAX[0], sl >= 0, sl < NUMMAX[0]]
                 # field order of the Transaction variant follows the enum definition
                 order = getattr(I, "enum_payloads", {}).get("CardanoBlockTransactionMkTreeNode", {}).get("Transaction")
                 v = None
@@ -206,7 +212,7 @@ def run(tier, seed):
                 nt = MI.norm_type(fty)
                 al = db.alias(nt)
                 if nt == "String" or (al and MI.norm_type(al) == "String"):
-                    sv, c1 = sstr.symbolic("%s_%s_%s" % (tyname, fname, tag), L_HASH, HEX)
+                    sv, c1 = sstr.symbolic("%s_%s_%s" % (tyname, fname, tag), L_HASH, ALPHA(tag, HEX))
                     cons += c1
                     vals.append(sv)
                     fields.append(sv)
@@ -244,6 +250,27 @@ def run(tier, seed):
             else:
                 ob.status = "inconclusive"
                 rep.inconcl("item %s vs %s: solver gave up" % (ka, kb))
+        # ---- long hashes: an honest 64-character hash against an altered one of up to 66 bytes (truncation, fixed-width renderings) -----
+        NUMMAX[0] = 10
+        for ka, which in (("Block", "block"), ("Transaction", "tx"), ("Transaction", "block")):
+            LONG.clear()
+            LONG.update({("a", which): 64, ("a", which, "min"): 64, ("b", which): 66, ("b", which, "min"): 60})
+            other = "tx" if which == "block" else "block"
+            LONG.update({("a", other): 1, ("b", other): 1})
+            A, B = node(ka, "la"), node(ka, "lb")
+            ob = rep.add(core.Obligation("c11_%s_leaf_injective_long_%s_hash" % (ka.lower(), which), "smt",
+                                         "equal %s leaves => equal fields, with an honest 64-character %s hash on one side and an altered one of 60..66 arbitrary bytes on the other (numbers < 10)" % (ka, which)))
+            status = decide_pairs(A, B, True, ob, 1)
+            if status == "unsat":
+                ob.status = "discharged"
+            elif status == "sat":
+                ob.status = "failed"
+                failures.append(("%s_leaf_long_hash" % ka.lower(), ob, ("node", ka, ka)))
+            else:
+                ob.status = "inconclusive"
+                rep.inconcl("long %s hash (%s): solver gave up" % (which, ka))
+        LONG.clear()
+        NUMMAX[0] = U64
         # ---- wide numbers: every u64 digit class with one-character hashes (boundaries such as 2^63) ---------------------------
         if MAXD < 20:
             save = L_HASH
